@@ -219,15 +219,35 @@ def make_env_expr(bindings):
     return m
 
 
-def outcome(f):
-    """run f → ["ok", dump(with smask), str, size] or ["raise", class]"""
+class CaseTimeout(BaseException):
+    pass
+
+
+def _alarm(signum, frame):
+    raise CaseTimeout()
+
+
+def outcome(f, seconds=5.0):
+    """run f → ["ok", dump(with smask), str, size] or ["raise", class] or ["timeout"] (wall-clock guard:
+    the real code computes `int << n` and `[bit0]*n` literally)."""
+    import signal
+    old = signal.signal(signal.SIGALRM, _alarm)
+    signal.setitimer(signal.ITIMER_REAL, seconds)
     try:
-        e = f()
+        try:
+            e = f()
+            res = ["ok", dump(e, smask=True), render(e), e.size if isinstance(e, exp) else None]
+        finally:
+            signal.setitimer(signal.ITIMER_REAL, 0)
     except ScriptError:
         raise
+    except CaseTimeout:
+        return ["timeout"]
     except Exception as ex:
         return ["raise", exc_class(ex)]
-    return ["ok", dump(e, smask=True), render(e), e.size if isinstance(e, exp) else None]
+    finally:
+        signal.signal(signal.SIGALRM, old)
+    return res
 
 
 def run(script, action, complexity=0):
